@@ -129,6 +129,8 @@ def gen_fault(rng, kind: str, allow_e3_figure: bool, allow_e3_group: bool) -> di
         return {"kind": "E", "phase": "encode", "u": rng.random(), "exc": rng.choice(E_EXCS),
                 "mode": "call", "k": None}
     r2 = rng.random()
+    if r2 < 0.08:
+        return {"kind": "T", "mode": "enospc", "n": 1}
     if r2 < 0.25:
         return {"kind": "V", "mode": rng.choice(V_MODES_FAIL)}
     if r2 < 0.7:
@@ -570,6 +572,24 @@ def _exec_faults(plan, sb, rtflite, conv_mod, arg) -> dict:
                 construct_error = type(e).__name__
         # --- E3 natural failures ----------------------------------------------
         undo = []
+        t_fired = [0]
+        if fk == "T":
+            # the intermediate file cannot be written (disk full under TMPDIR): a short write, then ENOSPC
+            import pathlib
+
+            orig_wt = pathlib.Path.write_text
+
+            def failing_write_text(self, *a, _orig=orig_wt, **k):
+                if str(self).startswith(sb.tmp + os.sep):
+                    t_fired[0] += 1
+                    if t_fired[0] >= fault.get("n", 1):
+                        with open(self, "w") as fh:
+                            fh.write("PARTIAL")
+                        raise OSError(errno.ENOSPC, "No space left on device")
+                return _orig(self, *a, **k)
+
+            pathlib.Path.write_text = failing_write_text
+            undo.append(lambda: setattr(pathlib.Path, "write_text", orig_wt))
         if fk == "E3":
             undo = _arm_e3(fault, doc, sb)
             ev["e3_armed"] = bool(undo)
@@ -609,6 +629,7 @@ def _exec_faults(plan, sb, rtflite, conv_mod, arg) -> dict:
         after = sb.snapshot()
         ev["outcome"] = outcome
         ev["construct_error"] = construct_error
+        ev["t_fired"] = fk == "T" and t_fired[0] >= fault.get("n", 1)
         ev["fired"] = tr.fired
         ev["phase_counts"] = dict(tr.counts)
         ev["phase_counts_ev"] = dict(tr.counts_ev)
@@ -720,6 +741,8 @@ def expected_failure(ev) -> bool:
         return True
     if fk == "V":
         return True
+    if fk == "T":
+        return bool(ev.get("t_fired"))
     if fk == "P":
         return f["mode"] in C_MODES_FAIL
     if fk == "M":
@@ -1057,7 +1080,8 @@ def summarise(plan, res, idx) -> dict:
         f = e["fault"]
         kind = f["kind"]
         mode = f.get("mode") or f.get("what") or f.get("phase") or ""
-        fired = bool(e.get("fired")) or (kind in ("V", "P", "M")) or (kind == "E3" and e.get("e3_armed"))
+        fired = (bool(e.get("fired")) or (kind in ("V", "P", "M")) or (kind == "E3" and e.get("e3_armed"))
+                 or (kind == "T" and e.get("t_fired")))
         key = f"{kind}:{mode}" if kind != "E" else f"E:{f.get('phase')}"
         if e.get("natural_ok") is False:
             nd = fk.setdefault("E3:natural_document_failure", {"configured": 0, "fired": 0, "swallowed": 0})
@@ -1071,7 +1095,7 @@ def summarise(plan, res, idx) -> dict:
                 if e["outcome"]["k"] == "returned":
                     d["swallowed"] += 1
         phase = (e["fired"] or {}).get("phase") if e.get("fired") else (
-            "construct" if kind == "V" else ("convert" if kind in ("P", "M") else ("encode" if kind == "E3" else "-")))
+            "construct" if kind == "V" else ("convert" if kind in ("P", "M", "T") else ("encode" if kind == "E3" else "-")))
         cells.add(f"{e['target_pre_state']}|{e['kind']}|{phase if fired else 'nofault'}")
         if fired or e["target_pre_state"] == "exists":
             site = (e["fired"] or {}).get("site") if e.get("fired") else mode
@@ -1169,7 +1193,8 @@ def matrix_jobs(root: int, docs: list) -> list:
     jobs = []
     idx = 30_000_000
     rng = core.rng_for(root, PROP, "matrix")
-    faults = ([{"kind": "V", "mode": m} for m in V_MODES_FAIL] + [{"kind": "P", "mode": m} for m in C_MODES_FAIL]
+    faults = ([{"kind": "T", "mode": "enospc", "n": 1}] + [{"kind": "V", "mode": m} for m in V_MODES_FAIL]
+              + [{"kind": "P", "mode": m} for m in C_MODES_FAIL]
               + [{"kind": "M", "mode": m} for m in DUCK_BAD])
     states = [{"pre": "absent", "missing_parents": 0}, {"pre": "file", "missing_parents": 0},
               {"pre": "absent", "missing_parents": 2}, {"pre": "earlier", "missing_parents": 0}]
@@ -1178,7 +1203,7 @@ def matrix_jobs(root: int, docs: list) -> list:
         for f in faults:
             for st in states:
                 tgt = {"name": "m" + SUFFIX[kind], "style": rng.choice(["str", "Path", "tilde", "relative"]), **st}
-                conv = "duck_bad" if f["kind"] == "M" else ("default" if f["kind"] == "V" else "explicit")
+                conv = "duck_bad" if f["kind"] == "M" else ("default" if f["kind"] in ("V", "T") else "explicit")
                 ops = []
                 if st["pre"] == "earlier":
                     ops.append({"kind": kind, "doc": 0, "target": dict(tgt, pre="absent"), "fault": {"kind": "none"},
